@@ -106,6 +106,8 @@ type RuleEvent struct {
 	Round int64
 	Rule  qbft.UponRule
 	Msg   *M
+	At    time.Time
+	Seq   int64 // position in the common order of rule events and round changes
 }
 
 // RoundChange is one transition of a process from one round to another.
@@ -113,6 +115,8 @@ type RoundChange struct {
 	Proc     int64
 	From, To int64
 	Rule     qbft.UponRule
+	At       time.Time
+	Seq      int64
 }
 
 type Proc struct {
@@ -164,6 +168,7 @@ type Sim struct {
 	Rules        []RuleEvent
 	RoundChg     int
 	RoundChanges []RoundChange // every round change of every process, with the rule that caused it
+	evSeq        int64
 	Hooks        Hooks
 	LeaderFn     func(inst, round, proc int64) bool
 	ctx          context.Context
@@ -228,13 +233,15 @@ func (s *Sim) defFor(p *Proc) qbft.Definition[int64, int64, int64] {
 	d.LogUponRule = func(_ context.Context, _ int64, process, round int64, msg QMsg, rule qbft.UponRule) {
 		s.mu.Lock()
 		p.lastRule = rule
-		s.Rules = append(s.Rules, RuleEvent{Proc: process, Round: round, Rule: rule, Msg: FromQ(msg)})
+		s.evSeq++
+		s.Rules = append(s.Rules, RuleEvent{Proc: process, Round: round, Rule: rule, Msg: FromQ(msg), At: time.Now(), Seq: s.evSeq})
 		s.mu.Unlock()
 	}
 	d.LogRoundChange = func(_ context.Context, _ int64, process, round, newRound int64, rule qbft.UponRule, _ []QMsg) {
 		s.mu.Lock()
 		s.RoundChg++
-		s.RoundChanges = append(s.RoundChanges, RoundChange{Proc: process, From: round, To: newRound, Rule: rule})
+		s.evSeq++
+		s.RoundChanges = append(s.RoundChanges, RoundChange{Proc: process, From: round, To: newRound, Rule: rule, At: time.Now(), Seq: s.evSeq})
 		s.mu.Unlock()
 	}
 	d.LogUnjust = func(_ context.Context, _ int64, process int64, msg QMsg) {
